@@ -973,6 +973,10 @@ static void janet_thread_chan_cb(JanetEVGenericMessage msg) {
                 msg.argp = channel;
                 msg.argj = x;
                 janet_ev_post_event(vm, janet_thread_chan_cb, msg);
+            } else {
+                /* Nobody is waiting any more, but the give has already completed: keep the value
+                 * as the oldest queued item instead of dropping it. */
+                janet_q_push_head(&channel->items, &x, sizeof(Janet));
             }
         } else {
             JanetChannelPending writer;
